@@ -12,6 +12,8 @@ namespace Rosu
 namespace FrameEnc
 open Rosu Encode
 
+set_option linter.unusedSectionVars false
+
 variable {F P : Type} [Scalar F] [Scalar P] [Cvt P F] [Trig F] [Trig P]
 
 /-- the fields of a map the `[TimingPoints]` and `[HitObjects]` blocks are written from: `m'` agrees with `m` on
